@@ -155,6 +155,25 @@ if ADDABLE:
     if got != expected(extra):
         fails.append({"history": ["activate(L)", "deactivate", "L[:] = other additions", "activate(L)"], "what": "additions list object reused with other contents",
                       "permitted_but_not_expected": sorted(map(str, got - expected(extra))), "expected_but_refused": sorted(map(str, expected(extra) - got))})
+# one new member added to each allow-listed module in turn: the unpickler's tables must be the built-in ones plus that member in that one
+# module, for every module (an addition must not show up under another module's name, whatever the built-in tables share)
+hook.remove_hook()
+ml.ML_ALLOWLIST.clear()
+ml.ML_ALLOWLIST.update(copy.deepcopy(SNAP))
+for m in sorted(SNAP):
+    n_ops += 1
+    u = ml.FicklingMLUnpickler(io.BytesIO(b""), also_allow=[f"{m}.VerifNewMember"])
+    table = getattr(u, "allowlist", None)
+    if not isinstance(table, dict):
+        break           # (the tables are kept some other way: the probes above are what speaks)
+    leaked = sorted(k for k in table if k != m and "VerifNewMember" in table[k])
+    wrong = sorted(k for k in set(table) | set(SNAP) if set(table.get(k, {})) != set(SNAP.get(k, {})) | ({"VerifNewMember"} if k == m else set()))
+    if leaked or wrong:
+        fails.append({"history": [("construct", [f"{m}.VerifNewMember"])], "what": "an addition to one module changes what the unpickler permits under other modules",
+                      "permitted_but_not_expected": [f"{k}.VerifNewMember" for k in leaked], "modules_whose_table_differs": wrong[:6]})
+        break
+    if not check_builtin([("construct", [f"{m}.VerifNewMember"])]):
+        break
 hook.remove_hook()
 print(json.dumps({"bounded": True, "sequences": len(FIXED) + 41, "operations": n_ops, "probes": [list(p) for p in PROBES], "n_failures": len(fails),
                   "failures": fails[:40]}, default=str))
